@@ -330,8 +330,9 @@ func c19churn(idx int) run.Result {
 		c19churnOne(plain, tlsPort, p, r, k)
 	}
 	settle := func(target *counters) (counters, bool) {
-		// poll until the counters stop moving (fixed point) or the grace window ends
-		deadline := time.Now().Add(15 * time.Second)
+		// poll until the counters are at a fixed point: unchanged for a while AND no server goroutine is
+		// still working. A wall-clock window alone is not trusted (a starved process looks stable).
+		deadline := time.Now().Add(60 * time.Second)
 		last := sample(srv)
 		stableSince := time.Now()
 		for time.Now().Before(deadline) {
@@ -345,7 +346,7 @@ func c19churn(idx int) run.Result {
 			if target != nil && cur.goroutines <= target.goroutines && cur.registry <= target.registry && cur.fds <= target.fds {
 				return cur, true
 			}
-			if time.Since(stableSince) > 1500*time.Millisecond {
+			if time.Since(stableSince) > 1500*time.Millisecond && busyServerGoroutines() == 0 {
 				return cur, true
 			}
 		}
@@ -353,7 +354,8 @@ func c19churn(idx int) run.Result {
 	}
 	base, ok := settle(nil)
 	if !ok {
-		res.Inconclusive = "baseline did not settle"
+		_, dump := serverGoroutines()
+		res.Inconclusive = "baseline did not settle: " + clipS(strings.ReplaceAll(dump, "\n", " | "), 600)
 		return res
 	}
 	cycles := c19.cycles
@@ -398,6 +400,28 @@ func c19churn(idx int) run.Result {
 	}
 	if after.goroutines > base.goroutines || after.registry > base.registry || after.fds > base.fds {
 		_, dump := serverGoroutines()
+		// histogram of where the remaining server goroutines are parked
+		hist := map[string]int{}
+		for _, g := range strings.Split(dump, "\n\n") {
+			var fr []string
+			for _, l := range strings.Split(g, "\n") {
+				if l == "" || strings.HasPrefix(l, "\t") || strings.HasPrefix(l, "goroutine ") {
+					continue
+				}
+				if i := strings.Index(l, "("); i > 0 {
+					l = l[:i]
+				}
+				if j := strings.LastIndex(l, "/"); j >= 0 {
+					l = l[j+1:]
+				}
+				fr = append(fr, l)
+			}
+			if len(fr) > 0 {
+				k := strings.Join(fr, " < ")
+				hist[clipS(k, 400)]++
+			}
+		}
+		dump = fmt.Sprintf("where the server goroutines are parked: %v\n", hist) + dump
 		fdl := ""
 		if es, err := os.ReadDir("/proc/self/fd"); err == nil {
 			for _, e := range es {
@@ -454,4 +478,26 @@ func init() {
 		Chunk:         100,
 		MinConclusive: 200,
 	})
+}
+
+// busyServerGoroutines counts server goroutines that are NOT parked in an accept, in a network read of
+// the request parser or in a TLS handshake read: such goroutines are still draining work (running,
+// waiting for the command mutex, writing), so counters that include them are not at a fixed point
+// however long they have been unchanged.
+func busyServerGoroutines() int {
+	_, dump := serverGoroutines()
+	busy := 0
+	for _, g := range strings.Split(dump, "\n\n") {
+		if strings.TrimSpace(g) == "" {
+			continue
+		}
+		acceptLoop := strings.Contains(g, ".Accept(")
+		parkedInRead := strings.Contains(g, "[IO wait") && strings.Contains(g, "proto.(*Parser)") && strings.Contains(g, ".Read(")
+		handshake := strings.Contains(g, "[IO wait") && strings.Contains(g, "Handshake")
+		parkedAtPoint := strings.Contains(g, "sched.(*Ctl).hit")
+		if !acceptLoop && !parkedInRead && !handshake && !parkedAtPoint {
+			busy++
+		}
+	}
+	return busy
 }
